@@ -397,7 +397,9 @@ func (p *untypedParamBinder) setFieldValue(target reflect.Value, defaultValue in
 			}
 			return nil
 		}
-		f, err := strconv.ParseFloat(data, 64)
+		// parse at the width of the target: the shortest spelling of a float32 close to
+		// MaxFloat32 lies above MaxFloat32 when it is read as a float64
+		f, err := strconv.ParseFloat(data, target.Type().Bits())
 		if err != nil {
 			return errors.InvalidType(p.Name, p.parameter.In, tpe, data)
 		}
